@@ -40,19 +40,21 @@ theorem gen_consts_ok : constsOk genConsts = true := by decide
 
 /-- **3 + 2d + k**: `ssdp:all` (any letter case) is answered with one message for the root device,
     two per device and one per service -/
-theorem all_count (t : DevTree) (st : Str) (h : lower st = ssdpAll) :
-    (buildResponses t st).length = 1 + 2 * (allDevices t).length + (allServices t).length := by
-  simp only [buildResponses, h, if_true, List.length_cons, List.length_append, List.length_map]
-  omega
+theorem all_count (t : DevTree) (ar : Bool) (st : Str) (h : lower st = ssdpAll) :
+    (buildResponses t ar st).length
+      = 1 + 2 * (allDevices t).length + (allServices t).length + (if ar then 1 else 0) := by
+  cases ar <;>
+    simp only [buildResponses, h, if_true, List.length_cons, List.length_append, List.length_map,
+      List.length_nil, Bool.false_eq_true, if_false] <;> omega
 
 /-- **answers = advertisements = byebyes**: the (ST, USN) pairs answered to `ssdp:all` are, as a
     multiset, the (NT, USN) pairs of the `ssdp:alive` cycle, which are literally the pairs revoked
     with `ssdp:byebye`; and that list is the UDA table, in order -/
 theorem answers_eq_advertisements (t : DevTree) (st : Str) (h : lower st = ssdpAll) :
-    (buildResponses t st).Perm (advertisements t) ∧ byebyes t = advertisements t
+    (buildResponses t false st).Perm (advertisements t) ∧ byebyes t = advertisements t
     ∧ advertisements t = (expAll t).map toMsg := by
   refine ⟨?_, rfl, advertisements_eq t⟩
-  simp only [buildResponses, h, if_true, advertisements]
+  simp only [buildResponses, h, if_true, advertisements, Bool.false_eq_true, if_false, List.append_nil]
   refine List.Perm.cons _ ?_
   refine List.Perm.append ?_ (List.Perm.refl _)
   exact perm_map_map_flatMap respUdn (respDevType none) (allDevices t)
@@ -60,12 +62,12 @@ theorem answers_eq_advertisements (t : DevTree) (st : Str) (h : lower st = ssdpA
 /-- **every USN begins with the UDN of the device it describes** (table entries; by
     `target_dispatch` / `answers_eq_advertisements` these are the USNs of every emitted message),
     and the library's `udn_from_usn` recovers exactly that UDN -/
-theorem usn_begins_with_udn {t : DevTree} (hw : wfTree t = true) (st : Str) :
+theorem usn_begins_with_udn {t : DevTree} (hw : wfTree t = true) (ar : Bool) (st : Str) :
     (∀ e ∈ expAll t, startsWith e.usn e.dev = true ∧ udnFromUsn e.usn = some e.dev) ∧
-    (∀ e ∈ (expected t st).1, startsWith e.usn e.dev = true ∧ udnFromUsn e.usn = some e.dev) := by
+    (∀ e ∈ (expected t ar st).1, startsWith e.usn e.dev = true ∧ udnFromUsn e.usn = some e.dev) := by
   have w := WF.of_wfTree hw
   exact ⟨fun e he => ⟨(expAll_ok w e he).usn_prefix, (expAll_ok w e he).udn_of_usn⟩,
-         fun e he => ⟨(expected_ok w st e he).usn_prefix, (expected_ok w st e he).udn_of_usn⟩⟩
+         fun e he => ⟨(expected_ok w ar st e he).usn_prefix, (expected_ok w ar st e he).udn_of_usn⟩⟩
 
 /-! ### search-target dispatch -/
 
@@ -77,30 +79,43 @@ theorem version_matching {ty b : Str} {w : Nat} (h : typeParts (lower ty) = some
     ∧ matchTypeVersions ty (lower st) = typeMatches ty st :=
   ⟨matchTypeVersions_of_parts h st, matchTypeVersions_eq_typeMatches (by rw [h]; rfl) st⟩
 
-/-- **target dispatch**: for every well-formed tree and EVERY string `st`, the answers are — as a
-    multiset of (ST, USN), ST compared ignoring ASCII case where it echoes the request — exactly
-    the table prescribed for `st`: everything for `ssdp:all`, the root message for
-    `upnp:rootdevice`, the UUID message of each device whose UDN is `st`, one message (echoing
-    `st`) per device / service whose type is `st`'s type at an equal or higher version, and nothing
-    for anything else -/
-theorem target_dispatch {t : DevTree} (hw : wfTree t = true) (st : Str) :
-    ((buildResponses t st).map (msgKey (expected t st).2)).Perm
-      ((expected t st).1.map (expKey (expected t st).2)) :=
-  dispatch_perm (WF.of_wfTree hw) st
+/-- **target dispatch**: for every well-formed tree — devices may share UDNs or types, services may
+    repeat, a device type may equal a service type — both settings of the always-root option and
+    EVERY string `st`, the answers are, as a multiset of (ST, USN) (ST compared ignoring ASCII case
+    where it echoes the request), exactly the table prescribed for `st`: everything for `ssdp:all`,
+    the root message for `upnp:rootdevice`, otherwise one UUID message per device whose UDN is `st`
+    plus one message (echoing `st`) per device and per service whose type is `st`'s type at an equal
+    or higher version, nothing for anything else; plus one root message when the option is on -/
+theorem target_dispatch {t : DevTree} (hw : wfTree t = true) (ar : Bool) (st : Str) :
+    ((buildResponses t ar st).map (msgKey (expected t ar st).2)).Perm
+      ((expected t ar st).1.map (expKey (expected t ar st).2)) :=
+  dispatch_perm (WF.of_wfTree hw) ar st
 
-/-- … in particular `upnp:rootdevice` gets exactly the root message, and a target for which the
-    table is empty (foreign UUID, foreign or too-high type version, malformed) gets nothing -/
+/-- … in particular (option off) `upnp:rootdevice` gets exactly the root message, a target for
+    which the table is empty (foreign UUID, foreign or too-high type version, malformed) gets
+    nothing, and the number of answers to a type target is the number of devices plus the number of
+    services offering that type at the requested or a higher version (multiset form of "one per
+    matching device / service") -/
 theorem target_dispatch_cases {t : DevTree} (hw : wfTree t = true) (st : Str) :
-    (lower st = rootDevice → buildResponses t st = [respRoot t]) ∧
-    ((expected t st).1 = [] → buildResponses t st = []) := by
-  constructor
+    (lower st = rootDevice → buildResponses t false st = [respRoot t]) ∧
+    ((expected t false st).1 = [] → buildResponses t false st = []) ∧
+    (lower st ≠ ssdpAll → lower st ≠ rootDevice →
+      (buildResponses t false st).length
+        = ((allDevices t).filter fun d => lower d.udn == lower st).length
+          + ((allDevices t).filter fun d => typeMatches d.type st).length
+          + ((allServices t).filter fun s => typeMatches s.type st).length) := by
+  refine ⟨?_, ?_, ?_⟩
   · intro h
     have h2 : rootDevice ≠ ssdpAll := by decide
     simp [buildResponses, h, h2]
   · intro h
-    have := target_dispatch hw st
+    have := target_dispatch hw false st
     rw [h] at this
     simpa using this.length_eq
+  · intro h1 h2
+    have := (target_dispatch hw false st).length_eq
+    simp [expected, expectedBase, h1, h2] at this
+    omega
 
 /-! ### once, in the window, to the requester -/
 
@@ -111,7 +126,7 @@ theorem target_dispatch_cases {t : DevTree} (hw : wfTree t = true) (st : Str) :
 theorem sent_once_in_window {k : Consts} (hk : constsOk k = true) (t : DevTree) (now : Int) (r : Req)
     (sel : Option Nat) (hr : isMSearch r = true) :
     ∃ sends, answer k t now r sel = some sends ∧
-      sends.map (·.msg) = buildResponses t (r.st.getD []) ∧
+      sends.map (·.msg) = buildResponses t k.alwaysRoot (r.st.getD []) ∧
       ∀ s ∈ sends, now ≤ s.time ∧ s.time ≤ now + windowMs r.mx :=
   answer_spec (ConstsOk.of_bool hk) t now r sel hr
 
@@ -155,26 +170,41 @@ theorem announce_cycle (k : Consts) (t : DevTree) (n i : Nat) (h : i < n) :
 
 /-! ### the library's own listener -/
 
-/-- **listener accepts**: with a description URL the listener does not reject by design (http…,
-    not loopback / 169.254), every message the server emits for a well-formed tree — any search
-    answer, any `ssdp:alive`, any `ssdp:byebye` (after its alive) — is reported by the listener
-    model as the device the message describes, under the message's own ST/NT, at the description URL -/
-theorem listener_accepts {t : DevTree} (hw : wfTree t = true) {loc : Str} (hl : validLocation loc = true) :
-    (∀ st, ∀ m ∈ buildResponses t st, ∃ e ∈ (expected t st).1, m.usn = e.usn ∧
-        hearSearch m.st m.usn loc = ⟨true, e.dev, m.st, loc, 0⟩) ∧
+/-- **one listener**: the `Str`-level predicates used above are the merged C03/C04 listener
+    model's: `udn_from_usn`, and the location test with the prefix and needles generated from
+    `ssdp_listener.py` (same for searches and advertisements) -/
+theorem listener_predicates (u l : Str) :
+    C03.Parse.udnFromUsn (toS u) = (udnFromUsn u).map toS
+    ∧ C03.Parse.locOk C03.genCfg.searchPrefix C03.genCfg.searchNeedles (toS l) = validLocation l
+    ∧ C03.Parse.locOk C03.genCfg.advPrefix C03.genCfg.advNeedles (toS l) = validLocation l :=
+  ⟨udnFromUsn_eq u, (validLocation_eq l).1, (validLocation_eq l).2⟩
+
+/-- **listener accepts** (composition with the C03/C04 model): take any message the server emits
+    for a well-formed tree — any search answer (either option setting), any `ssdp:alive`, any
+    `ssdp:byebye` — as the full header list `build_ssdp_packet` serialises, add what
+    `decode_ssdp_packet` adds, and run the merged listener model (`C03.Parse.parseEv`: `_on_data`
+    dispatch and the validity predicates `valid_search_headers / valid_advertisement_headers /
+    valid_byebye_headers`; `C03.step`: `SsdpDeviceTracker` and the `_on_*` callbacks) on a tracker
+    that knows nothing (byebye: that has just processed the alive).  With a description URL the
+    listener does not reject by design (http…, not 127.0.0.1 / [::1] / 169.254 — IPv4, IPv6 or
+    named host alike) the callback fires with the device the message describes, the message's own
+    ST/NT, and the description URL as the device's location. -/
+theorem listener_accepts {t : DevTree} (hw : wfTree t = true) (c : Cfg) (hl : validLocation c.location = true) :
+    (∀ ar st, ∀ m ∈ buildResponses t ar st, ∃ e ∈ (expected t ar st).1, m.usn = e.usn ∧
+        hearResponse c m = ⟨true, e.dev, m.st, c.location, 0⟩) ∧
     (∀ m ∈ advertisements t, ∃ e ∈ expAll t, m = toMsg e ∧
-        hearAlive m.st m.usn loc = ⟨true, e.dev, m.st, loc, 1⟩ ∧
-        hearByebye m.st m.usn loc = ⟨true, e.dev, m.st, loc, 2⟩) := by
+        hearAlive c m = ⟨true, e.dev, m.st, c.location, 1⟩ ∧
+        hearByebye c m = ⟨true, e.dev, m.st, c.location, 2⟩) := by
   have w := WF.of_wfTree hw
   constructor
-  · intro st m hm
-    obtain ⟨e, he, heok, husn, hst, _⟩ := response_entry w st hm
-    exact ⟨e, he, husn, by rw [husn]; exact hearSearch_ok heok hst hl⟩
+  · intro ar st m hm
+    obtain ⟨e, he, heok, husn, hst, _⟩ := response_entry w ar st hm
+    exact ⟨e, he, husn, hearResponse_ok heok c husn hst hl⟩
   · intro m hm
     rw [advertisements_eq] at hm
     obtain ⟨e, he, rfl⟩ := List.mem_map.mp hm
     have heok := expAll_ok w e he
-    exact ⟨e, he, rfl, hearAlive_ok heok hl, hearByebye_ok heok hl⟩
+    exact ⟨e, he, rfl, hearAlive_ok heok c rfl heok.st hl, hearByebye_ok heok c rfl heok.st hl⟩
 
 /-! ### the wire -/
 
@@ -229,35 +259,45 @@ theorem c13_ok_gen {t : DevTree} (hw : wfTree t = true) (cfg : Cfg)
 /-! ### non-vacuity -/
 
 section Example
+def exLeaf : DevTree := .node "uuid:leaf".toList "urn:schemas-upnp-org:device:Leaf:3".toList
+  ["urn:schemas-upnp-org:service:C:2".toList] []
 def exEmb : DevTree := .node "uuid:emb".toList "urn:schemas-upnp-org:device:Emb:2".toList
-  ["urn:schemas-upnp-org:service:B:1".toList] []
+  ["urn:schemas-upnp-org:service:B:1".toList, "urn:schemas-upnp-org:service:C:2".toList] [exLeaf]
 def exTree : DevTree := .node "UUID:Root".toList "urn:schemas-upnp-org:device:Root:1".toList
   ["urn:schemas-upnp-org:service:A:3".toList] [exEmb]
 def exCfg : Cfg :=
-  { baseUri := "http://192.168.1.5:8000".toList, deviceUrl := "/device.xml".toList, server := "s".toList,
+  { baseUri := "http://[2001:db8::1]:8000".toList, deviceUrl := "/device.xml".toList, server := "s".toList,
     cacheControl := Gen.C13Server.cacheControl, date := "d".toList, bootId := "1".toList, configId := "1".toList,
     host := "239.255.255.250:1900".toList }
 def exReq (st : String) (mx : Option String) : Req :=
   { line := mSearchLine, man := some ssdpDiscover, st := some st.toList, mx := mx.map String.toList }
 def exSearches : List SearchIn :=
   [⟨0, "a".toList, exReq "SSDP:ALL" (some "3"), some 17⟩,
-   ⟨500, "b".toList, exReq "URN:schemas-upnp-org:device:emb:1" (some "10"), none⟩,
-   ⟨900, "c".toList, exReq "urn:schemas-upnp-org:device:Emb:3" none, none⟩,
-   ⟨950, "d".toList, exReq "uuid:EMB" (some "-1"), none⟩]
+   ⟨500, "b".toList, exReq "URN:schemas-upnp-org:device:leaf:1" (some "10"), none⟩,
+   ⟨900, "c".toList, exReq "urn:schemas-upnp-org:service:C:3" none, none⟩,
+   ⟨950, "d".toList, exReq "uuid:EMB" (some "-1"), none⟩,
+   ⟨960, "e".toList, exReq "urn:schemas-upnp-org:service:c:0" (some "0"), none⟩]
 
-/-- the hypotheses of `c13_ok_gen` hold for a tree with an embedded device and services, and the
-    run is not trivial: 7 answers to `ssdp:all` after 117 ms, one echoing answer to a lower version
-    at the upper jitter bound (4749 ms ≤ MX), none to a higher version, one to the embedded UUID at
-    once; 8 announcements (more than one round of 7) and 7 byebyes -/
+/-- the hypotheses of `c13_ok` hold for a root with an embedded device that itself embeds a device
+    (the service type `C:2` occurs in two devices), an IPv6 description URL, and the run is not
+    trivial: 11 answers to `ssdp:all` after 117 ms; ONE echoing answer for the nested device's type
+    requested at a lower version and in another letter case, at the upper jitter bound (4749 ms,
+    MX 10 capped at 5); none for a service type at a higher version; the UUID answer at once for a
+    negative MX; TWO answers (two devices) for service type `C` at version 0; 35 announcements =
+    three full rounds of 11 and two more, stopped, 11 byebyes.  With the always-root option a foreign
+    target is answered with the root message alone. -/
 example :
-    wfTree exTree = true ∧ validLocation exCfg.location = true ∧
-    (let c := runCase genConsts exCfg "t".toList exTree exSearches (some ⟨100, 100 + 7 * 30000 + 5, true⟩)
+    wfTree exTree = true ∧ validLocation exCfg.location = true ∧ constsOk { genConsts with alwaysRoot := true } = true ∧
+    (let c := runCase genConsts exCfg "t".toList exTree exSearches (some ⟨100, 100 + 34 * 30000 + 5, true⟩)
      c.searches.map (fun s => (s.sends.length, s.sends.map (·.time) |>.head?))
-       = [(7, some 117), (1, some 5249), (0, none), (1, some 950)]
-     ∧ c.alives.length = 8 ∧ c.byebyes.length = 7
-     ∧ (c.searches.map fun s => s.sends.map fun m => (String.ofList m.st, String.ofList m.usn))[3]?
-         = some [("uuid:emb", "uuid:emb")]) := by
-  refine ⟨by decide +kernel, by decide +kernel, by decide +kernel⟩
+       = [(11, some 117), (1, some 5249), (0, none), (1, some 950), (2, some 960)]
+     ∧ c.alives.length = 35 ∧ c.byebyes.length = 11 ∧ c.stopTime = some (100 + 34 * 30000 + 5)
+     ∧ (c.searches.map fun s => s.sends.map fun m => (String.ofList m.st, String.ofList m.usn))[1]?
+         = some [("urn:schemas-upnp-org:device:leaf:1", "uuid:leaf::urn:schemas-upnp-org:device:Leaf:3")]
+     ∧ (c.searches.map fun s => s.sends.map fun m => String.ofList m.usn)[4]?
+         = some ["uuid:emb::urn:schemas-upnp-org:service:C:2", "uuid:leaf::urn:schemas-upnp-org:service:C:2"])
+    ∧ (buildResponses exTree true "nothing".toList).map (fun m => String.ofList m.usn) = ["UUID:Root::upnp:rootdevice"] := by
+  refine ⟨by decide +kernel, by decide +kernel, by decide +kernel, by decide +kernel, by decide +kernel⟩
 end Example
 
 end Upnp.C13
